@@ -232,6 +232,101 @@ impl Property for ParseAgreement {
 }
 
 // ---------------------------------------------------------------------------
+// part 1b: the derived command extended by the application
+
+/// `T::command().subcommand(Command::new("zz-extra") ...)` followed by `FromArgMatches::from_arg_matches`: a struct whose
+/// subcommand field is `Option<Sub>` must still be extracted, with the field empty, when the line names the added
+/// subcommand.
+struct Augmented;
+
+fn augmentable() -> &'static Vec<&'static Family> {
+    static F: OnceLock<Vec<&'static Family>> = OnceLock::new();
+    F.get_or_init(|| {
+        families()
+            .iter()
+            .filter(|f| match &f.node {
+                Node::Struct(s) => matches!(level_sub(s), Some((e, true)) if !e.has_external()),
+                Node::Enum(_) => false,
+            })
+            .collect()
+    })
+}
+
+impl Property for Augmented {
+    type Case = ParseCase;
+    fn name(&self) -> &'static str {
+        "augmented-command"
+    }
+    fn rule(&self) -> String {
+        format!(
+            "the {} corpus families whose root struct has an `Option<Sub>` subcommand field (no external variant) x a command line written from the descriptor \
+             followed by the name of a subcommand that the application added to `T::command()` and 0-2 values for it. Oracle: whenever the extended command accepts \
+             the line, FromArgMatches::from_arg_matches / from_arg_matches_mut on those matches succeed and equal the shape rules (own arguments as usual, the subcommand \
+             field None when the matched subcommand is the added one). non-trivial = an accepted line that reached the added subcommand; distinct = distinct (family, argv)",
+            augmentable().len()
+        )
+    }
+    fn budget(&self, tier: Tier) -> Budget {
+        Budget { cases: tier.pick(200_000, 1_000_000), tape_len: 600 }
+    }
+    fn decode(&self, t: &mut Tape<'_>) -> ParseCase {
+        let fs = augmentable();
+        if fs.is_empty() {
+            return ParseCase { family: String::new(), argv: Vec::new() };
+        }
+        let f = fs[t.choose(fs.len())];
+        let mut argv = free_argv(&f.node, t);
+        argv.push("zz-extra".to_owned());
+        for _ in 0..t.range(0, 2) {
+            argv.push((*t.pick(&["v", "w1", "0"])).to_owned());
+        }
+        ParseCase { family: f.entry.rust.to_owned(), argv }
+    }
+    fn run(&self, case: &ParseCase, ctx: &mut Ctx) -> Verdict {
+        let Some(f) = family(&case.family) else { return Verdict::Discard("unknown-family") };
+        let argv = argv_of(f.entry.bin, &case.argv);
+        let cmd = (f.entry.command)().subcommand(clap::Command::new("zz-extra").arg(clap::Arg::new("rest").num_args(0..)));
+        let m = match catch(|| cmd.try_get_matches_from(argv.iter())) {
+            Ok(Ok(m)) => m,
+            Ok(Err(_)) => return Verdict::Discard("line-rejected-by-the-extended-command"),
+            Err(p) => return Verdict::Fail(Failure::from_panic(&p)),
+        };
+        let exp = match expected(&f.node, &m) {
+            Ok(e) => e,
+            Err(_) => return Verdict::Discard("shape-rules-cannot-extract"),
+        };
+        match catch(|| (f.entry.from_matches)(&m)) {
+            Ok(Ok(v)) => {
+                if exp != v {
+                    let (k, p) = diff(&f.node, &exp, &v);
+                    return Verdict::fail(format!("derive:augmented:field-differs:{k}"), format!("{}: {:?}: {p}", case.family, case.argv));
+                }
+            }
+            Ok(Err((k, msg))) => {
+                return Verdict::fail(
+                    format!("derive:augmented:rejects-what-the-command-accepts:{k:?}"),
+                    format!(
+                        "{}: {:?}: the extended command accepts the line, the shape rules give {exp:?}, but from_arg_matches fails with {k:?}: {}",
+                        case.family,
+                        case.argv,
+                        msg.lines().next().unwrap_or("")
+                    ),
+                )
+            }
+            Err(p) => return Verdict::Fail(Failure::from_panic(&p)),
+        }
+        if m.subcommand_name() == Some("zz-extra") {
+            ctx.label("added-subcommand-reached");
+            ctx.nontrivial();
+        }
+        Verdict::Pass
+    }
+    fn json_shrinkable(&self) -> bool {
+        true
+    }
+}
+
+// ---------------------------------------------------------------------------
 // part 2: print -> parse round trip
 
 #[derive(Serialize, Deserialize, Hash, Clone, Debug)]
@@ -285,6 +380,11 @@ impl Property for RoundTrip {
                 return Verdict::Discard("inexpressible-value");
             }
         };
+        if words.is_empty() && (f.entry.command)().is_arg_required_else_help_set() {
+            // the root type reserves the empty line for help: the value "nothing given" has no command line
+            ctx.label_owned("inexpressible:empty line under arg_required_else_help".to_owned());
+            return Verdict::Discard("inexpressible-value");
+        }
         let argv = argv_of(f.entry.bin, &words);
         let got = match catch(|| (f.entry.parse)(&argv)) {
             Ok(r) => r,
@@ -351,7 +451,11 @@ impl Property for Update {
         for _ in 0..n {
             let v = gen_value(&f.node, t, true);
             let mut sub = t.clone();
-            let line = print(&f.node, &v, t, Mode { vary: true, subset: true }, &mut |_| sub.chance(1, 2)).unwrap_or_default();
+            let mut line = print(&f.node, &v, t, Mode { vary: true, subset: true }, &mut |_| sub.chance(1, 2)).unwrap_or_default();
+            // the line that names nothing at all (for an enum the printer always names the variant)
+            if t.chance(1, 12) {
+                line.clear();
+            }
             lines.push(line);
         }
         UpdateCase { family: f.entry.rust.to_owned(), old, lines }
@@ -379,7 +483,12 @@ impl Property for Update {
                     ensure!(e.kind() == *k, "update:error-kind-differs", "{}: step {i} {:?}: update fails with {k:?}, the update command with {:?}", case.family, line, e.kind());
                     // an update command never requires anything: every argument and subcommand is optional there
                     ensure!(
-                        !matches!(k, clap::error::ErrorKind::MissingRequiredArgument | clap::error::ErrorKind::MissingSubcommand),
+                        !matches!(
+                            k,
+                            clap::error::ErrorKind::MissingRequiredArgument
+                                | clap::error::ErrorKind::MissingSubcommand
+                                | clap::error::ErrorKind::DisplayHelpOnMissingArgumentOrSubcommand
+                        ),
                         format!("update:update-command-requires-something:{k:?}"),
                         "{}: step {i} {:?} on {cur:?}: command_for_update() itself rejects the line with {k:?}: {}",
                         case.family,
@@ -652,7 +761,7 @@ impl Property for ValueEnums {
 fn check() -> Check {
     Check {
         id: "C15",
-        parts: vec![Box::new(Gen(ParseAgreement)), Box::new(Gen(RoundTrip)), Box::new(Gen(Update)), Box::new(Gen(ValueEnums))],
+        parts: vec![Box::new(Gen(ParseAgreement)), Box::new(Gen(Augmented)), Box::new(Gen(RoundTrip)), Box::new(Gen(Update)), Box::new(Gen(ValueEnums))],
         assumptions: vec![
             format!("programs are quantified by a generated, compiled corpus of {} derive families (harness/vderive/gen_corpus.py: a systematic shape x value type x spelling matrix plus seeded random composition); a proc-macro input cannot be varied at run time", families().len()),
             "the descriptor of each family (ids, long/short names under rename_all, shapes, attributes) is emitted by the corpus generator from its abstract model, not read back from the macro's output".into(),
